@@ -42,9 +42,16 @@ DEVIATIONS = {
                                          guide="Fig8Guide"),
     "vote_tally_survives_retry": dict(inv="ElectionSafety", n=5, term=2, log=1, ops=1, msgs=99, toseq=(),
                                       guide="SplitVoteGuide"),
+    "ae_replaces_suffix": dict(inv="LeaderCompleteness", n=3, term=2, log=3, ops=3, msgs=99, toseq=(),
+                               guide="ReorderGuide"),
+    "vote_prefers_longer_log": dict(inv="LeaderCompleteness", n=3, term=3, log=4, ops=5, msgs=99, toseq=(),
+                                    guide="PartitionGuide"),
 }
 # directed 5-node scenarios of RaftImpl.tla: (guide, MaxTerm, MaxLog, MaxOps)
-GUIDES = {"fig8": ("Fig8Guide", 4, 2, 4), "splitvote": ("SplitVoteGuide", 2, 1, 1), "stale": ("StaleGuide", 4, 2, 4)}
+# name -> (guide, nodes, MaxTerm, MaxLog, MaxOps)
+GUIDES = {"fig8": ("Fig8Guide", 5, 4, 2, 4), "splitvote": ("SplitVoteGuide", 5, 2, 1, 1),
+          "stale": ("StaleGuide", 5, 4, 2, 4), "reorder": ("ReorderGuide", 3, 2, 3, 3),
+          "partition": ("PartitionGuide", 3, 3, 4, 5)}
 # a contract clause that fails on an execution the as-code model reproduces is attributed to a
 # deviation that makes this clause fail in the model and that fired in the execution
 CLAUSE_DEV = {}
@@ -52,6 +59,7 @@ for _k, _v in DEVIATIONS.items():
     CLAUSE_DEV.setdefault(_v["inv"], []).append(_k)
 
 _COMMIT = ["match_is_follower_last_index", "stale_term_ae_response", "commit_counts_old_term_entry",
+           "ae_replaces_suffix", "vote_prefers_longer_log",
            "same_term_ae_clears_vote", "vote_tally_survives_retry"]
 ATTRIBUTION = {     # group -> (clauses, the only registered deviations that can break them)
     "election": (["ElectionSafety"], ["same_term_ae_clears_vote", "vote_tally_survives_retry"]),
@@ -66,6 +74,8 @@ SITES = {
     "stale_term_ae_response": "raft.py:_handle_append_entries_response",
     "commit_counts_old_term_entry": "raft.py:_try_advance_commit",
     "vote_tally_survives_retry": "raft.py:_start_election/_step_down (_votes_received_set)",
+    "ae_replaces_suffix": "raft.py:_handle_append_entries (entry reconciliation)",
+    "vote_prefers_longer_log": "raft.py:_handle_request_vote (up-to-date test)",
 }
 
 
@@ -132,9 +142,9 @@ def model_check(chk, tier, known):
     # the directed 5-node scenarios (figure 8, split vote + retry, stale response) in the design model
     # (when no deviation is registered the state-graph dumps of model_behaviours are these very runs and
     # check the contract themselves)
-    for gname, (guide, term, log, ops) in GUIDES.items():
+    for gname, (guide, gn, term, log, ops) in GUIDES.items():
         if known:
-            jobs.append(("guide",) + job("guide_" + gname, consts(5, [], term, log, ops, 99, guide=guide),
+            jobs.append(("guide",) + job("guide_" + gname, consts(gn, [], term, log, ops, 99, guide=guide),
                                          workers=2))
     for dev, d in DEVIATIONS.items():
         c = consts(d["n"], [dev], d["term"], d["log"], d["ops"], d["msgs"], toseq=d["toseq"],
@@ -366,8 +376,8 @@ def model_behaviours(chk, tier, known, rng):
                  ("g_t2_o2", consts(3, known, 2, 1, 2, 2, toseq=(1, 3)), 4000),
                  ("g_t3", consts(3, known, 3, 1, 2, 2, toseq=(1, 2, 1)), 3000)]
     # directed 5-node scenarios: every variant of which in-flight message of the named class is delivered
-    for gname, (guide, term, log, ops) in GUIDES.items():
-        confs.append((f"g_{gname}", consts(5, known, term, log, ops, 99, guide=guide), 100000))
+    for gname, (guide, gn, term, log, ops) in GUIDES.items():
+        confs.append((f"g_{gname}", consts(gn, known, term, log, ops, 99, guide=guide), 100000))
     out = []
 
     def dump(item):
@@ -542,15 +552,25 @@ PY_GUIDES = {
                 "D AER 1 3", "D AER 4 3", "T 1", "D RV 1 4", "D RV 1 5", "D RVR 4 1", "D RVR 5 1", "S 1",
                 "D AER 2 1", "H 1", "D AE 1 4", "D AER 4 1", "D RV 1 3", "T 3", "D RV 3 2", "D RV 3 5",
                 "D RVR 2 3", "D RVR 5 3"),
+    "reorder": _g("T 1", "D RV 1 2", "D RVR 2 1", "S 1", "H 1", "S 1", "H 1",
+                  "D AE 1 2", "D AER 2 1", "D AE 1 2", "D AE 1 2",
+                  "T 2", "D RV 2 3 2", "D RVR 3 2 2", "S 2", "H 2", "D AE 2 3", "D AER 3 2", "D AE 2 3",
+                  "D AER 3 2"),
+    "partition": _g("T 1", "D RV 1 2", "D RVR 2 1", "S 1", "S 1", "S 1",
+                    "T 2", "D RV 2 3 2", "D RVR 3 2 2", "S 2", "H 2", "D AE 2 3 2", "D AER 3 2 2", "D AE 2 3 2",
+                    "D AER 3 2 2", "H 2", "D AE 2 3 2", "H 1", "D AE 1 3 1", "D AER 3 1 2",
+                    "T 1", "D RV 1 3 3", "D RVR 3 1 3", "D RV 1 2 3", "D RVR 2 1 3",
+                    "S 1", "H 1", "D AE 1 3 3", "D AER 3 1 3", "D AE 1 3 3", "D AER 3 1 3"),
 }
+PY_GUIDE_N = {"fig8": 5, "splitvote": 5, "stale": 5, "reorder": 3, "partition": 3}
 
 
 def guided_schedule(rng, which, noise=0.05):
     """One of the directed scenarios on a real 5-node cluster, roles permuted."""
-    w = World(5)
+    w = World(PY_GUIDE_N[which])
     perm = list(w.nodes)
     rng.shuffle(perm)
-    p = {i + 1: perm[i] for i in range(5)}
+    p = {i + 1: perm[i] for i in range(len(perm))}
     for st in PY_GUIDES[which]:
         if rng.random() < noise and w.pool:                       # noise: a stray delivery or a loss
             k = rng.randrange(len(w.pool))
@@ -766,6 +786,110 @@ def sim_run(rng, n, *, kind):
         sw.close()
 
 
+def sim_directed(rng, which):
+    """Directed shapes inside a real Simulation (3 nodes, real Network, real timers).  A polling client watches
+    public state and steers only the environment: link delays, a partition, client submits.
+      reorder    two AppendEntries of one term reach a follower in reverse order (the first is slow), the
+                 third node hears nothing; then the leader is cut off and the follower is elected
+      partition  the leader is cut off and keeps accepting commands; the majority elects a new leader and
+                 commits a shorter log; after the heal the new leader's link to the old one is slow, so the
+                 old leader (longer, older log) times out first and asks for votes"""
+    from happysimulator.components.network.link import NetworkLink
+    from happysimulator.core.event import Event
+    from happysimulator.core.temporal import Instant
+    lr = random.Random(rng.random())
+    delays, const = {}, {}
+
+    def factory(name):
+        def draw():
+            q = delays.get(name)
+            if q:
+                return q.pop(0)
+            return const.get(name, lr.uniform(0.002, 0.008))
+        return NetworkLink(name=name, latency=W.ScriptedLatency(draw))
+
+    hb = 0.5
+    sw = SimWorld(3, latency_draw=None, link_factory=factory, sim_seed=lr.randrange(1 << 30),
+                  election_timeout_min=3.0, election_timeout_max=4.0, heartbeat_interval=hb)
+    try:
+        duration = 30.0
+        sim = sw.build(duration)
+        st = {"phase": 0, "t": 0.0, "h": 0}
+        nm = W.node_name
+
+        def established():
+            ls = [i for i in sw.nodes if sw.nodes[i].is_leader]
+            if len(ls) != 1:
+                return None
+            ld = sw.nodes[ls[0]]
+            ok = all(nd.state.name == "FOLLOWER" and nd.current_term == ld.current_term
+                     for j, nd in sw.nodes.items() if j != ls[0])
+            return ls[0] if ok else None
+
+        def ticks(i):
+            return sum(1 for s in sw.steps if s["a"] == "H" and s.get("n") == i)
+
+        def poll(ev):
+            now = ev.time.to_seconds()
+            ph = st["phase"]
+            if ph == 0 and now >= 5.0:
+                ld = established()
+                if ld is not None:
+                    others = [i for i in sw.nodes if i != ld]
+                    lr.shuffle(others)
+                    st.update(L=ld, F=others[0], V=others[1], phase=1)
+                    if which == "reorder":
+                        const[f"{nm(ld)}>{nm(others[1])}"] = 8.0          # the third node hears nothing more
+                        delays[f"{nm(ld)}>{nm(others[0])}"] = [0.6]        # the next request to F is slow
+                        sw.submit(ld)
+                        st["h"] = ticks(ld)
+                    else:
+                        st["part"] = sw.net.partition([sw.nodes[ld]], [sw.nodes[i] for i in others])
+                        for _ in range(3):
+                            sw.submit(ld)
+            elif which == "reorder":
+                ld = st.get("L")
+                if ph == 1 and ticks(ld) > st["h"]:
+                    sw.submit(ld)
+                    st.update(h=ticks(ld), phase=2)
+                elif ph == 2 and ticks(ld) > st["h"]:
+                    st.update(t=now, phase=3)
+                elif ph == 3 and now >= st["t"] + 0.25:
+                    sw.net.partition([sw.nodes[ld]], [sw.nodes[st["F"]], sw.nodes[st["V"]]])
+                    st["phase"] = 4
+                elif ph == 4:
+                    new = [i for i in (st["F"], st["V"]) if sw.nodes[i].is_leader
+                           and sw.nodes[i].current_term > sw.nodes[ld].current_term]
+                    if new:
+                        sw.submit(new[0])
+                        st["phase"] = 5
+            else:
+                ld = st.get("L")
+                if ph == 1:
+                    new = [i for i in (st["F"], st["V"]) if sw.nodes[i].is_leader
+                           and sw.nodes[i].current_term > sw.nodes[ld].current_term]
+                    if new:
+                        st.update(N=new[0], W=[i for i in (st["F"], st["V"]) if i != new[0]][0], t=now, phase=2)
+                        sw.submit(new[0])
+                elif ph == 2 and (all(sw.nodes[i].log.commit_index >= 1 for i in (st["N"], st["W"]))
+                                  or now > st["t"] + 2.5):
+                    const[f"{nm(st['N'])}>{nm(ld)}"] = 9.0      # the new leader's heartbeats reach the old one late
+                    st["part"].heal()
+                    st["phase"] = 3
+            if now + 0.01 < duration:
+                return Event.once(time=Instant.from_seconds(now + 0.01), event_type="client.poll", fn=poll,
+                                  daemon=True)
+            return None
+
+        sim.schedule(Event.once(time=Instant.from_seconds(4.0), event_type="client.poll", fn=poll, daemon=True))
+        sim.schedule(Event.once(time=Instant.from_seconds(duration), event_type="end", fn=lambda e: None))
+        sim.run()
+        meta = {"kind": "directed:" + which, "n": 3, "events": sw.events_seen, "phase_reached": st["phase"]}
+        return sw, meta, None
+    finally:
+        sw.close()
+
+
 # ---------------------------------------------------------------------------
 # 5. trace validation (RaftTrace.tla is the judge)
 
@@ -832,7 +956,8 @@ def culprit(clause, pos, verdict, devset):
         cands = ["future_keyed_by_index_only"]
     else:
         # wrong commits; a double leader explains them only if it was actually observed before
-        cands = ["match_is_follower_last_index", "stale_term_ae_response", "commit_counts_old_term_entry"]
+        cands = ["match_is_follower_last_index", "stale_term_ae_response", "commit_counts_old_term_entry",
+                 "ae_replaces_suffix", "vote_prefers_longer_log"]
         if any(c == "ElectionSafety" and p <= pos for c, p in fl):
             # same index and term, different entry = two leaders of a term
             cands = double + cands if clause == "LogMatching" else cands + double
@@ -967,8 +1092,17 @@ def run(tier, seed, replay=None):
         tid = add(sw, "sim:faultfree", sw.n, sim=m, sub=sub, kind="faultfree")
         if prog:
             prog_fail[tid] = prog
+    # directed shapes inside a real Simulation (same-term AppendEntries reordering + leader change; partitioned
+    # leader with a longer, older log that times out first after the heal)
+    n_dir = 3 if quick else 12
+    for which in ("reorder", "partition"):
+        for k in range(n_dir):
+            sub = rng.randrange(1 << 30)
+            sw, m, _ = sim_directed(random.Random(sub), which)
+            sim_events += m["events"]
+            add(sw, f"sim:directed:{which}", 3, sim=m, sub=sub, which=which)
     chk.extra["simulation_events"] = sim_events
-    chk.extra["simulation_runs"] = n_sim + n_ff
+    chk.extra["simulation_runs"] = n_sim + n_ff + 2 * n_dir
     chk.extra["faultfree_runs"] = n_ff
     flush()
 
@@ -988,7 +1122,7 @@ def run(tier, seed, replay=None):
             sub = rng.randrange(1 << 30)
             w, style = guided_schedule(random.Random(sub), which, noise=0.0 if k < 3 else 0.05)
             styles[style] = styles.get(style, 0) + 1
-            add(w, f"random:{style}", 5, sub=sub, which=which, noise=0.0 if k < 3 else 0.05)
+            add(w, f"random:{style}", w.n, sub=sub, which=which, noise=0.0 if k < 3 else 0.05)
     chk.extra["random_schedules"] = styles
     flush()
     phase["python_drivers"] = round(time.time() - t0, 1)
@@ -1103,6 +1237,9 @@ def run_replay(chk, path, known):
     elif origin.startswith("random"):
         w, _ = random_schedule(random.Random(m["sub"]), m["n"], m["steps"])
         t = w.trace(1)
+    elif origin.startswith("sim:directed"):
+        sw, _, _ = sim_directed(random.Random(m["sub"]), m["which"])
+        t = sw.trace(1)
     elif origin.startswith("sim"):
         sw, _, prog = sim_run(random.Random(m["sub"]), m["n"], kind=m["kind"])
         t = sw.trace(1)
